@@ -474,7 +474,38 @@ impl HistoryModel {
             ctx.eval();
             match w.process(p, &msg) {
                 Ok(ReceivedMessage::Commit(d)) => match d.effect {
-                    CommitEffect::NewEpoch(_) => {
+                    CommitEffect::NewEpoch(ref ne) => {
+                        // RFC 9420 12.4: a commit whose proposal list is empty or contains an
+                        // Update, Remove, ExternalInit or GroupContextExtensions must carry an
+                        // update path -- otherwise commit_secret is zero and a member removed by
+                        // this very commit can compute the new epoch from the old init secret
+                        if self.mon.recipients || self.mon.ghosts {
+                            use mls_rs::group::proposal::Proposal as P;
+                            let needs = ne.applied_proposals.is_empty() || ne.applied_proposals.iter().any(|p| matches!(p.proposal, P::Update(_) | P::Remove(_) | P::ExternalInit(_) | P::GroupContextExtensions(_)));
+                            ctx.eval();
+                            if needs && !had_path {
+                                let kinds: Vec<&str> = ne
+                                    .applied_proposals
+                                    .iter()
+                                    .map(|p| match p.proposal {
+                                        P::Add(_) => "add",
+                                        P::Update(_) => "update",
+                                        P::Remove(_) => "remove",
+                                        P::Psk(_) => "psk",
+                                        P::ReInit(_) => "reinit",
+                                        P::ExternalInit(_) => "external_init",
+                                        P::GroupContextExtensions(_) => "gce",
+                                        _ => "custom",
+                                    })
+                                    .collect();
+                                let mut k = kinds.clone();
+                                k.sort();
+                                k.dedup();
+                                ctx.violation_for("C02", format!("commit-without-required-path|{}", k.join("+")), format!("the commit of {} applies {kinds:?} but carries no update path: its commit secret is the all-zero string, so a member it removes (or anyone holding the old epoch's init secret) can derive the new epoch", w.parties[by].name));
+                            } else if needs {
+                                ctx.goal("commit-with-required-path");
+                            }
+                        }
                         ctx.outcome("recv-commit:NewEpoch");
                         if w.g(p).current_epoch() != e0 + 1 {
                             ctx.violation_for("C01", "epoch-not-plus-one", format!("{} went from epoch {e0} to {}", w.parties[p].name, w.g(p).current_epoch()));
